@@ -212,7 +212,9 @@ pub fn build(aux: &J) -> W3Prog {
     let mut maxkeys = 0;
     for oi in 0..nobj {
         // final map
-        let nk = match rng.below(10) {
+        let nk = match if rng.chance(1, 30) { 99 } else { rng.below(10) } {
+            // beyond one page / node / inline capacity of common containers
+            99 => 65 + rng.usize_below(70),
             0 => 0,
             1..=5 => 1 + rng.usize_below(5),
             6..=8 => 4 + rng.usize_below(8),
@@ -220,7 +222,7 @@ pub fn build(aux: &J) -> W3Prog {
         };
         let mut m: BTreeMap<String, Val> = BTreeMap::new();
         let mut pool: Vec<String> = KEYS.iter().map(|s| s.to_string()).collect();
-        for i in 0..40 {
+        for i in 0..140 {
             pool.push(format!("k{i:02}"));
         }
         rng.shuffle(&mut pool);
